@@ -1,3 +1,141 @@
-/- Model for C03: not written yet -/
+import HapVerif.Model.Sync
+/-!
+# C03 — Spec: requests reach exactly the ready endpoints that Ingress and Service designate
+
+Written from the property and the documentation, over the cluster state (not over the generated
+configuration):
+
+* `effective w`: the declared paths that designate an existing Service port, first-created Ingress
+  first (creation time, then namespace/name; inside an Ingress `spec.defaultBackend`, then the
+  rules as listed), duplicates of a (host, path, type) erased keeping the first.  A declaration
+  that names a missing Service or port designates nothing and therefore claims nothing.
+* `specRoute w r`: the backends the property allows for a request.  Host first: the paths of the
+  request's host — for HTTPS only if some Ingress declares TLS for that host — choose by
+  `C04.best` (an exact path, else the longest matching declared path; equal length between
+  different path types is left open exactly as in C04).  No answer there: the same over the
+  `<default>` host (empty `host:` and `spec.defaultBackend`).  Else `--default-backend-service`,
+  else the 404 backend.
+* `specServers`: enabled servers = ready addresses of the Endpoints port that matches the Service
+  port; weight-0 servers only among not-ready addresses / terminating pods and only with
+  `drain-support`.
+-/
 namespace HapVerif.C03
+open HapVerif.Sync
+open HapVerif.C04 (Str MT lower)
+
+/-- every declaration of the Ingresses that belong to this controller, first-created first -/
+def allDecls (w : World) : List Decl := (sortIngs (w.ings.filter (·.valid))).flatMap declsOf
+
+/-- the host path a declaration designates, if its Service and port exist -/
+def toHPath (w : World) (d : Decl) : Option HPath :=
+  (resolve w d.ns d.svc d.port).map fun (s, sp) => ⟨d.host, d.path, d.mt, ⟨s.ns, s.name, sp.target⟩⟩
+
+def sameHP (a b : HPath) : Bool := a.host = b.host && a.path = b.path && a.mt = b.mt
+
+/-- first declaration of every (host, path, type) -/
+def effective (w : World) : List HPath := ((allDecls w).filterMap (toHPath w)).eraseDupsBy sameHP
+
+/-- some Ingress of this controller lists the host in `spec.tls` -/
+def declaresTLS (w : World) (h : Str) : Bool :=
+  (w.ings.filter (·.valid)).any fun i => i.tls.any fun t => t.hosts.contains h
+
+/-- backends `C04.best` allows among the paths `l`; `[]` = no path applies -/
+def answers (l : List HPath) (host path : Str) : List Str :=
+  (C04.best (rulesOf l) host path).filterMap fun i => (l[i]?).map (·.bk.id)
+
+/-- `--default-backend-service ns/name`: first port of the service -/
+def specDefault (w : World) : Str :=
+  match w.opts.defaultBackend with
+  | none => error404
+  | some (ns, name) =>
+    match w.findSvc ns name with
+    | none => error404
+    | some s =>
+      match s.ports.head? with
+      | none => error404
+      | some p0 => (BKey.mk s.ns s.name p0.target).id
+
+def specHostPaths (w : World) (tls : Bool) : List HPath :=
+  (effective w).filter fun p => p.host ≠ dfltHost ∧ (tls → declaresTLS w p.host)
+
+def specDfltPaths (w : World) : List HPath := (effective w).filter (·.host = dfltHost)
+
+/-- the backends the property allows for a request (never empty) -/
+def specRoute (w : World) (r : Req) : List Str :=
+  match answers (specHostPaths w r.tls) r.host r.path with
+  | a :: as => a :: as
+  | [] =>
+    match answers (specDfltPaths w) dfltHost r.path with
+    | a :: as => a :: as
+    | [] => [specDefault w]
+
+/-! ## servers -/
+
+/-- ready / not-ready targets of the Endpoints port matching service port `sp` -/
+def readyTargets (w : World) (s : Service) (sp : SvcPort) : List (Str × Nat) :=
+  match w.findEps s.ns s.name with | none => [] | some e => targetsOf e sp true
+
+def drainTargets (w : World) (s : Service) (sp : SvcPort) : List (Str × Nat) :=
+  (match w.findEps s.ns s.name with | none => [] | some e => targetsOf e sp false) ++
+    terminatingTargets w s sp
+
+def enabledOf (l : List Server) : List (Str × Nat) := (l.filter (·.weight ≠ 0)).map fun s => (s.ip, s.port)
+def drainedOf (l : List Server) : List (Str × Nat) := (l.filter (·.weight = 0)).map fun s => (s.ip, s.port)
+
+/-- verdict on the servers of one backend whose service port is known -/
+def checkServers (w : World) (s : Service) (sp : SvcPort) (l : List Server) : Option String :=
+  let ready := readyTargets w s sp
+  let dr := drainTargets w s sp
+  if !(enabledOf l).all ready.contains then some "not-ready-endpoint-served"
+  else if !(drainedOf l).isEmpty && !w.opts.drain then some "drain-without-support"
+  else if !(drainedOf l).all dr.contains then some "unknown-drained-server"
+  else if !ready.all (fun t => (enabledOf l).contains t || (w.opts.drain && dr.contains t)) then
+    some "ready-endpoint-missing"
+  else none
+
+/-- the port of a service with a given targetPort string -/
+def portByTarget (s : Service) (t : Str) : Option SvcPort := s.ports.find? (·.target = t)
+
+/-! ## oracle on the implementation's projection -/
+
+/-- all resolvable declarations, duplicates kept (to name a `duplicate-path-owner`) -/
+def allHP (w : World) : List HPath := (allDecls w).filterMap (toHPath w)
+
+/-- signature of a routing violation, `none` if the answer is allowed -/
+def checkRoute (w : World) (r : Req) (ans : Str) : Option String :=
+  if (specRoute w r).contains ans then none
+  else if r.tls && (answers (specHostPaths w false) r.host r.path).contains ans then some "https-without-tls"
+  else if ((answers ((allHP w).filter (·.host ≠ dfltHost)) r.host r.path) ++
+           (answers ((allHP w).filter (·.host = dfltHost)) dfltHost r.path)).contains ans then
+    some "duplicate-path-owner"
+  else some "wrong-backend"
+
+/-- the backend key of an id among the resolvable declarations and the default backend -/
+def keyOfId (w : World) (id : Str) : Option BKey :=
+  match (allHP w).find? (·.bk.id = id) with
+  | some p => some p.bk
+  | none =>
+    match w.opts.defaultBackend with
+    | none => none
+    | some (ns, name) =>
+      (w.findSvc ns name).bind fun s => (s.ports.head?).bind fun p0 =>
+        if (BKey.mk s.ns s.name p0.target).id = id then some ⟨s.ns, s.name, p0.target⟩ else none
+
+def checkBackend (w : World) (id : Str) (l : List Server) : Option String :=
+  match keyOfId w id with
+  | none => some "backend-without-declaration"
+  | some k =>
+    match w.findSvc k.ns k.svc with
+    | none => some "backend-without-service"
+    | some s =>
+      match portByTarget s k.port with
+      | none => some "backend-without-port"
+      | some sp => checkServers w s sp l
+
+/-- the whole oracle: routes then servers -/
+def oracle (w : World) (routes : List (Req × Str)) (servers : List (Str × List Server)) : Option String :=
+  match routes.findSome? (fun (r, a) => checkRoute w r a) with
+  | some s => some s
+  | none => servers.findSome? fun (id, l) => checkBackend w id l
+
 end HapVerif.C03
